@@ -87,7 +87,7 @@ func init() {
 		Runs:  []runSpec{{"S-life", 6, 8, nil}, {"S-escrow", 7, 9, nil}, {"S-leased", 7, 9, nil}, {"S-attr", 6, 8, nil}}}
 	props["C08"] = propSpec{Checker: func() Checker { return chkC08{} }, Assume: []string{
 		"the statement is one-directional (a bid is accepted ONLY IF ...): accepted bids are checked against the oracle on the pre-state; rejected bids are counted but not judged",
-		"bounded: MatchRequirements grid over requirement/own/attested subsets of {a=1,b=1,a=2}, auditor lists over {U1,U2} incl. duplicates; S-attr histories to the stated depth"},
+		"bounded: MatchRequirements grid over requirement/own/attested subsets of {a=1,b=1,a=2,c=\"\"} (also through Order.MatchAttributes), auditor lists over {U1,U2} incl. duplicates; S-attr histories to the stated depth"},
 		Extra: CheckMatchRequirements,
 		Runs:  []runSpec{{"S-attr", 9, 13, nil}, {"S-attr-leased", 4, 6, nil}, {"S-attr-upper", 3, 5, nil}, {"S-attr-2groups", 3, 5, nil}}}
 	props["C19"] = propSpec{Checker: func() Checker { return chkC19{} }, Assume: []string{
